@@ -253,6 +253,9 @@ var c01AllowFS = map[string]fsAllow{
 	"pkg/pdfcpu/model.resetCertificatesDir":  {"remove", "explicit `certificates reset`: empties pdfcpu's own trusted-certificate directory"},
 	"pkg/api.ensureTrustedCertificateDir":    {"mkdir", "creates pdfcpu's own trusted-certificate directory"},
 	"pkg/pdfcpu.AppendStatsFile":             {"open-dynamic-flag", "stats CSV append (O_APPEND|O_CREATE flag chosen in appendStatsFile): a log, not a document output"},
+	// only present with build tag pdfcpu_eutl (optional entries: not reported as stale in other configurations)
+	"pkg/pdfcpu/model.installDefaultCertificates": {"mkdir", "[optional] creates the eu/ directory inside pdfcpu's own trusted-certificate directory"},
+	"pkg/pdfcpu/model.installDefaultCertificate":  {"truncate", "[optional] writes an embedded EU trust list file into pdfcpu's own trusted-certificate directory"},
 }
 
 var _ = fmt.Sprint
@@ -1263,8 +1266,8 @@ func runFSWMC(c *Ctx, rule string, onlyCats map[string]bool) {
 	}
 	if onlyCats == nil {
 		var stale []string
-		for k := range c01AllowFS {
-			if !used[k] {
+		for k, al := range c01AllowFS {
+			if !used[k] && !strings.HasPrefix(al.reason, "[optional]") {
 				stale = append(stale, k)
 			}
 		}
